@@ -9,7 +9,7 @@ from affine import Affine
 
 from .crs import CRS, MaybeCRS, SomeCRS, norm_crs
 from .geobox import GeoBox, GeoBoxBase
-from .geom import Geometry, multipoint
+from .geom import BoundingBox, Geometry, multipoint
 from .math import Poly2d, affine_from_pts, align_up, resolution_from_affine, unstack_xy
 from .types import XY, MaybeInt, Resolution, SomeResolution, SomeShape, wh_
 
@@ -165,6 +165,13 @@ class GCPGeoBox(GeoBoxBase):
     def resolution(self) -> Resolution:
         """Resolution, pixel size in CRS units."""
         return self.approx.resolution
+
+    @property
+    def boundingbox(self) -> BoundingBox:
+        """Bounding box of the footprint in the native CRS."""
+        # base class version only looks at the pixel-side affine, which maps into
+        # the pixel space of the GCPs, not into the world
+        return self.extent.boundingbox
 
     def wld2pix(self, x, y):
         x, y = self._mapping.w2p(x, y)
